@@ -204,6 +204,7 @@ fn budget(prop: &str, tier: &str, seed: u64, scale: f64) -> Budget {
             sweeps.push(sweeps::huge_blank_arrays("C05"));
             sweeps.push(sweeps::margin_symbols("C05", seed));
             sweeps.push(sweeps::c05_special_byte_in_ascii_run());
+            sweeps.push(sweeps::c05_long_charset_runs());
             sweeps.push(sweeps::c05_unicode_encodings());
         }
         "C08" => {
@@ -222,6 +223,7 @@ fn budget(prop: &str, tier: &str, seed: u64, scale: f64) -> Budget {
             sweeps.push(sweeps::huge_blank_arrays("C08"));
             sweeps.push(sweeps::margin_symbols("C08", seed));
             sweeps.push(sweeps::c08_adjacent_fixed_pairs(seed));
+            sweeps.push(sweeps::c08_far_fixed_pairs(seed));
             sweeps.push(sweeps::c08_surplus_codewords(seed));
         }
         _ => {
